@@ -6,10 +6,10 @@ props = [json.loads(l) for l in open(os.path.join(V, "properties.jsonl"))]
 ready = json.load(open(os.path.join(V, "lean", "READY.json")))
 
 PARTIAL = {
-    "C01": "Proved: the scanner, the parser and the evaluator of the model never loop and never take a panic branch on well-formed trees and reachable environments (fuel adequacy, progress, invariant over all histories; hypothesis PosToNat on the kernel for identity()). C01Term: evaluation returns with an explicit fuel bound for every tree whose calls go to native functions or to non-recursive (ranked) user functions, running out of fuel requires the application of a user function, and the known non-terminating witnesses (named recursion, self-application through a parameter, a missed base case such as r(2.5)) are proved to diverge for every fuel. Carried by the streams alone: native stack depth, allocation failure, RefCell borrow flags, byte-index slicing; the K4 witnesses are replayed and listed as known findings.",
+    "C01": "Proved: the scanner, the parser and the evaluator of the model never loop and never take a panic branch on well-formed trees and reachable environments (fuel adequacy, progress, invariant over all histories; hypothesis PosToNat on the kernel for identity()). C01Term: evaluation returns with an explicit fuel bound for every tree whose calls go to native functions or to non-recursive (ranked) user functions, running out of fuel requires the application of a user function, and the known non-terminating witnesses (named recursion, self-application through a parameter, a missed base case such as r(2.5)) are proved to diverge for every fuel. Carried by the streams alone: native stack depth, allocation failure, RefCell borrow flags; byte-index slicing is proved safe in the model (C04Bytes: the cursor offsets of every token of every accepted text are character boundaries inside the text and the slice is the encoding of the consumed characters) and the lexeme texts are compared with the code by the scanner streams; the K4 witnesses are replayed and listed as known findings.",
     "C02": "Proved: evaluation of every number expression equals an independent denotation into Mathlib's complex numbers, with exactly the stated refusals; kind table; factorial. Floating-point rounding is carried by running the same definitions at Float against the implementation (bitwise / 4 ulp) and by an independent evaluator under a magnitude-scaled bound.",
     "C03": "Proved: the parser accepts exactly the documented grammar and returns its tree (C03_exact: parse ts = ok ss <-> DerivesProgram ts ss; soundness, completeness, unambiguity, statement shapes, delimiter requirement).",
-    "C04": "Proved: scan ok <-> declarative decomposition into blank runs and lexemes with exact slices, positions, number shape and value, whole-word keyword lookup, longest match, bad-character report; shipped spelling table = documented spellings except the known finding yard/yards/yd (partial theorem + proved counterexample). The number reader of the executable model (decimalToBits) is proved correctly rounded for every digit string and exponent (nearest, ties to even, subnormals, overflow threshold: C04Round); Rust's f64::from_str is compared with it bit for bit by the fmt stream.",
+    "C04": "Proved: scan ok <-> declarative decomposition into blank runs and lexemes with exact slices, positions, number shape and value, whole-word keyword lookup, longest match, bad-character report; the byte cursor (idx += len_utf8, input[prev..cur]) yields boundaries and exactly the consumed characters for every token, and UTF-8 encoding is injective (C04Bytes); shipped spelling table = documented spellings except the known finding yard/yards/yd (partial theorem + proved counterexample). The number reader of the executable model (decimalToBits) is proved correctly rounded for every digit string and exponent (nearest, ties to even, subnormals, overflow threshold: C04Round); Rust's f64::from_str is compared with it bit for bit by the fmt stream.",
     "C05": "Proved: shipped factors within tolerance of the exact definitions except the 13 bit-family rows (known finding; partial theorem + proved counterexample), symbols, spellings (partial: yard), round trip, paths, cross-kind refusal, bare numbers, affine temperature.",
     "C06": "Proved in any field with a lawful kernel: sizes add, subtract, scale and divide, cancellation laws, negation, every refusal.",
     "C07": "Proved for arbitrary sizes: every matrix operation refines the Mathlib operation, cofactor determinant = Matrix.det, det multiplicative, transpose laws, inverse exists iff det != 0 and A * inverse A = 1 (adjugate), cross product laws, |v|, shapes never panic. The column-cross orientation is a known finding (stated as a proved fact about the model).",
